@@ -108,6 +108,7 @@ func propRegistry() map[string]PropSpec {
 	add(PropSpec{
 		ID: "C03",
 		Harnesses: []HarnessSpec{
+			{Pkg: "server", Fn: "Harness_C03_forward_once", Init: []string{"util", "store", "compress", "cache", "location", "upstream", "server"}, Reach: []string{"C03.forward.end"}},
 			{Pkg: "server", Fn: "Harness_C03_maxage_quick", Init: []string{"util", "server"}, Tier: "quick", Reach: []string{"C03.maxage.end"}},
 			{Pkg: "server", Fn: "Harness_C03_maxage_presence", Init: []string{"util", "server"}, Reach: []string{"C03.maxage.end"}},
 			{Pkg: "server", Fn: "Harness_C03_maxage_twolines", Init: []string{"util", "server"}, Reach: []string{"C03.maxage.end"}},
@@ -288,6 +289,8 @@ func propRegistry() map[string]PropSpec {
 	add(PropSpec{
 		ID: "C05",
 		Harnesses: []HarnessSpec{
+			// after restore from the store: the decoded record serves the same identity body as the original
+			{Pkg: "cache", Fn: "Harness_C09_roundtrip", Init: initCache, Reach: []string{"C09.roundtrip.end"}},
 			{Pkg: "server", Fn: "Harness_C05_responder", Init: initServer, Reach: []string{"C05.responder.end", "C05.responder.served"}},
 			{Pkg: "cache", Fn: "Harness_C13_table", Init: initCache, Reach: []string{"C13.row3to6"}, EngineOnly: true},
 			{Pkg: "cache", Fn: "Harness_C13_cacheable", Init: initCache, Reach: []string{"C13.cacheable.compressible"}, EngineOnly: true},
@@ -303,6 +306,7 @@ func propRegistry() map[string]PropSpec {
 	add(PropSpec{
 		ID: "C14",
 		Harnesses: []HarnessSpec{
+			{Pkg: "location", Fn: "Harness_C14_set_publishes_sorted", Init: []string{"util", "location"}, Reach: []string{"C14.set-publishes.end"}, EngineOnly: true},
 			{Pkg: "location", Fn: "Harness_C14_match", Init: []string{"util", "location"}, Reach: []string{"C14.match.end"}},
 			{Pkg: "location", Fn: "Harness_C14_select", Init: []string{"util", "location"}, Reach: []string{"C14.select.none", "C14.select.some"}},
 		},
